@@ -41,6 +41,7 @@ type Engine struct {
 	timeoutMs   int
 	repoDir     string
 	verifDir    string
+	outDir      string // where evidence/ and replays/ are written (verifDir unless VERIF_OUT is set)
 	overlay     map[string][]byte
 	overlayReal map[string]string // virtual path -> real path
 	debug       bool
